@@ -358,3 +358,94 @@ Section IOProofs.
     - reflexivity.
   Qed.
 End IOProofs.
+
+(* ------------------------------------------------------------------ *)
+(* Soundness of load: whatever it returns -- from ANY byte string, written by
+   save or not -- went through the keyword constructors' validate() and
+   TensorFrame.validate(), hence is a well-formed frame. *)
+Section LoadSound.
+  Variable tensor : Type.
+  Variable tdim : tensor -> nat.
+  Variable tsize : tensor -> nat -> nat.
+  Variable valid_nested valid_embed : nat -> nat -> tensor -> tensor -> bool.
+  Variable stats : Type.
+  Variable byte : Type.
+  Variable enc : payload tensor stats -> list byte.
+  Variable dec : list byte -> option (payload tensor stats).
+
+  Lemma multi_kwargs_ok : forall valid (s : ser tensor) m,
+    multi_kwargs valid s = Some m -> multi_ok valid m.
+  Proof.
+    intros valid s m H. destruct s as [n|t|d]; cbn in H; try discriminate.
+    destruct (lookup String.eqb "num_rows"%string d) as [[r| |]|]; try discriminate.
+    destruct (lookup String.eqb "num_cols"%string d) as [[c| |]|]; try discriminate.
+    destruct (lookup String.eqb "values"%string d) as [[|v|]|]; try discriminate.
+    destruct (lookup String.eqb "offset"%string d) as [[|o|]|]; try discriminate.
+    destruct ((List.length d =? 4) && valid r c v o) eqn:E; [|discriminate].
+    injection H as <-. apply andb_true_iff in E. exact (proj2 E).
+  Qed.
+
+  Lemma mapM_dict_ok : forall (d : list (string * ser tensor)) l,
+    mapM (fun p : string * ser tensor => m <- multi_kwargs valid_nested (snd p) ;; Some (fst p, m)) d = Some l ->
+    Forall (fun p => multi_ok valid_nested (snd p)) l.
+  Proof.
+    induction d as [|[k s] d IH]; intros l H; cbn [mapM fst snd] in H.
+    - injection H as <-. constructor.
+    - destruct (multi_kwargs valid_nested s) as [m|] eqn:Em; cbn [obind] in H; [|discriminate].
+      destruct (mapM _ d) as [r|] eqn:Er; [|discriminate]. injection H as <-.
+      constructor; [exact (multi_kwargs_ok _ _ _ Em)|exact (IH _ eq_refl)].
+  Qed.
+
+  Lemma deserialize_feat_wf : forall st (s : ser tensor) f,
+    deserialize_feat valid_nested valid_embed st s = Some f -> feat_wf valid_nested valid_embed st f.
+  Proof.
+    intros st s f H. unfold deserialize_feat in H.
+    destruct (use_multi_nested st) eqn:En.
+    - destruct (multi_kwargs valid_nested s) as [m|] eqn:Em; cbn in H; [|discriminate]. injection H as <-.
+      cbn. split; [exact En|exact (multi_kwargs_ok _ _ _ Em)].
+    - destruct (use_multi_embedding st) eqn:Ee.
+      + destruct (multi_kwargs valid_embed s) as [m|] eqn:Em; cbn in H; [|discriminate]. injection H as <-.
+        cbn. split; [exact Ee|exact (multi_kwargs_ok _ _ _ Em)].
+      + destruct (use_dict_nested st) eqn:Ed.
+        * destruct s as [n|t|d]; try discriminate.
+          destruct (mapM _ d) as [l|] eqn:El; cbn in H; [|discriminate]. injection H as <-.
+          cbn. split; [exact Ed|exact (mapM_dict_ok _ _ El)].
+        * destruct s as [n|t|d]; try discriminate. injection H as <-. cbn. auto.
+  Qed.
+
+  Lemma deserialize_feat_dict_wf : forall (sd : list (stype * ser tensor)) fd,
+    deserialize_feat_dict valid_nested valid_embed sd = Some fd -> feat_dict_wf valid_nested valid_embed fd.
+  Proof.
+    unfold deserialize_feat_dict, feat_dict_wf.
+    induction sd as [|[st s] sd IH]; intros fd H; cbn [mapM fst snd] in H.
+    - injection H as <-. constructor.
+    - destruct (deserialize_feat valid_nested valid_embed st s) as [f|] eqn:Ef; cbn [obind] in H; [|discriminate].
+      destruct (mapM _ sd) as [r|] eqn:Er; [|discriminate]. injection H as <-.
+      constructor; [exact (deserialize_feat_wf _ _ _ Ef)|exact (IH _ eq_refl)].
+  Qed.
+
+  Lemma load_sound : forall b (t : tframe tensor) (cs : stats),
+    IO.load tdim tsize valid_nested valid_embed dec b = Some (t, cs) ->
+    tframe_wf tdim tsize valid_nested valid_embed t.
+  Proof.
+    intros b t cs H. unfold IO.load in H.
+    destruct (dec b) as [p|]; cbn [obind] in H; [|discriminate].
+    destruct (deserialize_feat_dict valid_nested valid_embed (d_ser (fst p))) as [fd|] eqn:Ed; cbn [obind] in H; [|discriminate].
+    unfold mk_tframe in H.
+    destruct (tf_validate tdim tsize (MkTF fd (d_names (fst p)) (d_y (fst p)) (d_num_rows (fst p)))) eqn:Ev;
+      cbn [obind] in H; [|discriminate].
+    injection H as <- _. split; [exact (deserialize_feat_dict_wf _ _ Ed)|exact Ev].
+  Qed.
+
+  Hypothesis H_dec_enc : forall x, dec (enc x) = Some x.
+
+  (* ... and therefore saving it again and loading that gives it back *)
+  Lemma loaded_frame_roundtrips : forall b (t : tframe tensor) (cs : stats),
+    IO.load tdim tsize valid_nested valid_embed dec b = Some (t, cs) ->
+    exists b', IO.save enc t cs = Some b' /\
+               IO.load tdim tsize valid_nested valid_embed dec b' = Some (t, cs).
+  Proof.
+    intros b t cs H.
+    exact (save_load_roundtrip tensor tdim tsize valid_nested valid_embed stats byte enc dec H_dec_enc t cs (load_sound _ _ _ H)).
+  Qed.
+End LoadSound.
